@@ -95,6 +95,27 @@ type Alias = Pt
 // @constructor NewPt
 type PP *Pt
 
+// self-referential and mutually recursive pointer types
+type Link *Link
+type Ping *Pong
+type Pong *Ping
+
+// promotion over several levels, by value and by pointer at every level
+type Meta struct{ Rev int }
+type Node struct {
+	Meta
+	Kids []*Node
+}
+type Tree struct{ *Node }
+type Forest struct{ Tree }
+type Grove struct{ *Forest }
+
+// @immutable
+type Leaf struct {
+	Meta
+	*Node
+}
+
 // @immutable
 // @testonly
 type Fn func(int) int
@@ -226,6 +247,34 @@ func (l *Local) Writes(o *lib.Pt, pp **lib.Pt, e error, ch chan lib.Pt) {
 	[]*lib.Pt{o}[0].X = 1
 	map[string]*lib.Pt{}["a"].X = 1
 	_ = e
+	// fields promoted over one, two, three and four levels with embedded pointers at every level; cyclic pointer types
+	var tr lib.Tree
+	var fo lib.Forest
+	var gr lib.Grove
+	var lf lib.Leaf
+	tr.Node = &lib.Node{}
+	tr.Rev = 5
+	tr.Rev++
+	tr.Kids[0] = nil
+	fo.Rev = 6
+	fo.Node.Meta.Rev += 1
+	gr.Forest = &fo
+	gr.Rev = 7
+	gr.Tree.Node.Kids[0].Rev--
+	lf.Rev = 8
+	lf.Meta.Rev = 9
+	lf.Node.Rev = 10
+	lf.Kids[0] = nil
+	(&lf).Node.Kids[0].Meta.Rev++
+	var ln lib.Link
+	var pg lib.Ping
+	var po lib.Pong
+	type box struct {
+		L lib.Link
+		P *lib.Ping
+	}
+	_ = func(a lib.Link, b lib.Pong) (lib.Ping, *lib.Link) { return nil, nil }
+	_, _, _, _ = ln, pg, po, box{}
 	// index / parenthesis / dereference layers around the assigned operand, in every order
 	type grid [][]int
 	g := &grid{{1}}
